@@ -103,7 +103,7 @@ def main():
             guard="--cfg volute_verif",
             enable="harness/.cargo/config.toml sets build.rustflags = [\"--cfg\", \"volute_verif\"]; the harness depends on /repo by path",
             baseline_off_cmd="cd /repo && cargo test --workspace --no-fail-fast --offline",
-            source_commits=["d7fd620"],
+            source_commits=["d7fd620", "8b90f63"],
             add_only=True,
         ),
         engines=[dict(name="lean-model", path="lean/", serves_properties=sorted(claimed),
